@@ -53,9 +53,15 @@ def _run_one(args):
                     out['native_cells'] += n; out['native_runs'] += 1
                     if fail:
                         out['violation'] = {'kind': 'native', 'failure': fail, 'obligations_failed': [o['name'] for o in failed]}; return out
-            out['violation'] = {'kind': 'no-input', 'obligations_failed': [o['name'] for o in failed],
-                                'solver_output': [{'obligation': o['name'], 'verdict': o['verdict'], 'why': o['why']} for o in failed],
-                                'cex_models_not_reproduced': [c['model'] for c in cands][:2]}
+            if getattr(con, 'dataflow', False) and not any(o['verdict'] == 'sat' and o['kind'] in ('safety', 'callee-pre', 'frame') for o in failed):
+                # spec-view chain: the proof follows the code's dataflow syntactically, so an undischarged chain obligation without a
+                # failing input means "the proof script no longer fits this code", not "the property fails": undecided, stand-in deepened below
+                r.undecided = 'spec-view chain obligation(s) not discharged and no failing input found: %s' % [o['name'] for o in failed]
+                out['undecided'] = r.undecided
+            else:
+                out['violation'] = {'kind': 'no-input', 'obligations_failed': [o['name'] for o in failed],
+                                    'solver_output': [{'obligation': o['name'], 'verdict': o['verdict'], 'why': o['why']} for o in failed],
+                                    'cex_models_not_reproduced': [c['model'] for c in cands][:2]}
         elif failed:
             out['violation'] = {'kind': 'no-input', 'obligations_failed': [o['name'] for o in failed],
                                 'solver_output': [{'obligation': o['name'], 'verdict': o['verdict'], 'why': o['why']} for o in failed]}
